@@ -6,6 +6,9 @@ RSYM_NOTE = ('trusted base: the rsym interpreter and its std/quick_xml models (v
              'and every counterexample is replayed natively before it is reported), z3, the syn-based AST dumper; bytes->events is quick_xml and is not encoded')
 
 CHECKS = {
+ 'C05': dict(
+   text='bounded, solver-decided: the parser and renderer are executed with every HashMap/HashSet iteration (and every tie of an unstable sort) forking over all orders; per path z3 shows the rendered text equal to the text of the canonical order, for all documents of the skeletons incl. names whose identifiers collide',
+   design='§4 C05, §2.2', technique='symbolic execution with iteration order as a nondeterministic choice (all k! orders), 2-run product decided by z3; counterexamples confirmed by repeated native runs with fresh hash seeds'),
  'C15': dict(
    text='bounded, solver-decided by two engines that must agree: Kani/CBMC verifies the compiled merge_necessity::<u8> for every list shape (LA,LB) in the stated set with all items and tags symbolic (unwinding assertions on, so within a shape the result holds for all values); rsym/z3 decides the same four clauses on the source with symbolic names for all shapes up to 3x3 (4x4 thorough)',
    design='§4 C15, §2.1', engine='rsym+kani', technique='Kani (CBMC/cadical) bounded model checking of the compiled generic function per list shape, cross-checked by source-level symbolic execution with z3',
